@@ -57,6 +57,13 @@ type CListMempool struct {
 	// This reduces the pressure on the proxyApp.
 	cache mempool.TxCache
 
+	// Serializes the admission of checked txs (resCbFirstTime). With a local
+	// ABCI client the request callback runs on the goroutine that called
+	// CheckTx, concurrently with other callers (they only hold the read lock),
+	// so the "is full" / "already there" checks and the insertion must form
+	// one critical section or the size limits and uniqueness can be violated.
+	addTxMtx tmsync.Mutex
+
 	logger  log.Logger
 	metrics *mempool.Metrics
 }
@@ -382,12 +389,28 @@ func (mem *CListMempool) resCbFirstTime(
 			postCheckErr = mem.postCheck(tx, r.CheckTx)
 		}
 		if (r.CheckTx.Code == abci.CodeTypeOK) && postCheckErr == nil {
-			// Check mempool isn't full again to reduce the chance of exceeding the
-			// limits.
+			mem.addTxMtx.Lock()
+			defer mem.addTxMtx.Unlock()
+
+			// Check mempool isn't full again: other txs may have been added since
+			// CheckTx looked.
 			if err := mem.isFull(len(tx)); err != nil {
 				// remove from cache (mempool might have a space later)
 				mem.cache.Remove(tx)
 				mem.logger.Error(err.Error())
+				return
+			}
+
+			// The cache is bounded independently of the mempool (and can be reset
+			// by Flush), so a tx that is still in the mempool may pass the cache
+			// check again. Never insert it twice: only record the new sender.
+			if e, ok := mem.txsMap.Load(types.Tx(tx).Key()); ok {
+				memTx := e.(*clist.CElement).Value.(*mempoolTx)
+				memTx.senders.LoadOrStore(peerID, true)
+				mem.logger.Debug(
+					"transaction already in the mempool, not adding it again",
+					"tx", types.Tx(tx).Hash(),
+				)
 				return
 			}
 
